@@ -59,11 +59,15 @@ pub struct Burst {
     pub yield_every: u8,
     /// 0 NOERROR, 1 NXDOMAIN, 2 REFUSED
     pub category: u8,
+    /// before the burst, another network's stream is driven to its limit (sequentially); the burst's
+    /// stream takes that bucket over when the two collide (certain with a table of one bucket)
+    #[serde(default)]
+    pub saturated_neighbour: bool,
 }
 
 fn burst() -> impl Strategy<Value = Burst> {
-    (2u8..=16, prop_oneof![3 => 50u16..400, 1 => 400u16..2000], 1u32..400, 1u32..4, prop_oneof![Just(0usize), Just(1usize), Just(2usize)], prop_oneof![Just(1usize), Just(7usize), Just(65537usize)], prop_oneof![2 => Just(0u8), 2 => 1u8..8], 0u8..3)
-        .prop_map(|(threads, per_thread, rate, window, slip, size, yield_every, category)| Burst { threads, per_thread, rate, window, slip, size, yield_every, category })
+    (2u8..=16, prop_oneof![3 => 50u16..400, 1 => 400u16..2000], 1u32..400, 1u32..4, prop_oneof![Just(0usize), Just(1usize), Just(2usize)], prop_oneof![Just(1usize), Just(7usize), Just(65537usize)], prop_oneof![2 => Just(0u8), 2 => 1u8..8], 0u8..3, any::<bool>())
+        .prop_map(|(threads, per_thread, rate, window, slip, size, yield_every, category, saturated_neighbour)| Burst { threads, per_thread, rate, window, slip, size, yield_every, category, saturated_neighbour })
 }
 
 fn c28_catalog() -> CatalogSpec {
@@ -103,6 +107,12 @@ pub fn oracle_c28(b: &Burst, st: &mut Stats) -> Verdict {
         p.set_size(b.size).expect("size");
         server.set_rrl_params(Some(p));
         let server = Arc::new(server);
+        if b.saturated_neighbour {
+            let mut buf = vec![0u8; 1232];
+            for _ in 0..limit + 2 {
+                let _ = server.handle_message(&request, ReceivedInfo::new(IpAddr::V4(Ipv4Addr::new(192, 0, 2, 77)), Transport::Udp), &mut buf);
+            }
+        }
         let barrier = Arc::new(Barrier::new(b.threads as usize));
         let full = Arc::new(AtomicU64::new(0));
         let slipped = Arc::new(AtomicU64::new(0));
@@ -175,6 +185,9 @@ pub fn oracle_c28(b: &Burst, st: &mut Stats) -> Verdict {
         ensure!(b.slip != 0 || s == 0, "slipped-with-slip-0", "{what}");
         ensure!(b.slip != 1 || d == 0, "dropped-with-slip-1", "{what}");
         st.class_n("bursts", 1);
+        if b.saturated_neighbour {
+            st.class(if b.size == 1 { "burst-taking-over-the-saturated-bucket-of-another-stream" } else { "burst-after-a-saturated-stream-of-another-network" });
+        }
         st.class_n("requests", total);
         st.class_n("responses-limited", s + d);
         if total > limit && b.threads >= 4 {
@@ -200,11 +213,15 @@ pub struct SwapRun {
     /// catalogs and key sets are replaced by two different threads instead of one
     #[serde(default)]
     pub two_swappers: bool,
+    /// a further thread keeps installing *empty* key sets (a second concurrent caller of
+    /// set_tsig_keys); queries are unsigned in such runs, the key set is judged at the end
+    #[serde(default)]
+    pub empty_key_rival: bool,
 }
 
 fn swap_run() -> impl Strategy<Value = SwapRun> {
-    (2u8..=8, 50u16..400, 3u16..200, prop_oneof![Just(0u16), 1u16..200], 0u8..=100, any::<bool>())
-        .prop_map(|(queriers, queries_each, generations, swapper_pause_us, signed_pct, two_swappers)| SwapRun { queriers, queries_each, generations, swapper_pause_us, signed_pct, two_swappers })
+    (2u8..=8, 50u16..400, 3u16..200, prop_oneof![Just(0u16), 1u16..200], 0u8..=100, any::<bool>(), prop::bool::weighted(0.3))
+        .prop_map(|(queriers, queries_each, generations, swapper_pause_us, signed_pct, two_swappers, empty_key_rival)| SwapRun { queriers, queries_each, generations, swapper_pause_us, signed_pct: if empty_key_rival { 0 } else { signed_pct }, two_swappers, empty_key_rival })
 }
 
 /// Every record of generation g carries g: last octet(s) of addresses, TTLs, SOA serial.
@@ -331,7 +348,19 @@ pub fn oracle_c32(w: &SwapRun, st: &mut Stats) -> Verdict {
             }
         })
     };
-    let swappers = if w.two_swappers { vec![spawn_swapper(1), spawn_swapper(2)] } else { vec![spawn_swapper(0)] };
+    let mut swappers = if w.two_swappers { vec![spawn_swapper(1), spawn_swapper(2)] } else { vec![spawn_swapper(0)] };
+    if w.empty_key_rival {
+        let (server, done, gens) = (server.clone(), done.clone(), w.generations);
+        swappers.push(std::thread::spawn(move || {
+            for _ in 0..gens {
+                if done.load(Ordering::SeqCst) {
+                    break;
+                }
+                server.set_tsig_keys(Arc::new(TsigKeyMap::new()));
+                std::thread::yield_now();
+            }
+        }));
+    }
     let mut handles = Vec::new();
     for qi in 0..w.queriers {
         let (server, cs, ci, ks, ki, failure, overlapped, checked) = (server.clone(), cat_started.clone(), cat_installed.clone(), key_started.clone(), key_installed.clone(), failure.clone(), overlapped.clone(), checked.clone());
@@ -456,7 +485,14 @@ pub fn oracle_c32(w: &SwapRun, st: &mut Stats) -> Verdict {
         b.question(&n(&[b"g", b"test"]), mr::T_NS, 1);
         b.rr(3, &MName::root(), mr::T_OPT, 4096, 0, &[]);
         let now = std::time::SystemTime::now().duration_since(std::time::UNIX_EPOCH).map(|d| d.as_secs()).unwrap_or(0);
-        let (signed, _) = sign(&b.buf, &secret(key_final as u32), now);
+        // the catalog and the key set the server reports are the ones it uses
+        ensure!(Arc::ptr_eq(&server.catalog(), &cats[cat_final as usize]), "stale-catalog-after-set_catalog-returned", "Server::catalog() is not the catalog of generation {cat_final}, whose installation has returned");
+        let km = server.tsig_keys();
+        let installed: Option<u32> = km.get(&qn(&key_name())).and_then(|(_, sec)| (1..=w.generations as u32).find(|g| secret(*g)[..] == sec[..]));
+        if !w.empty_key_rival {
+            ensure!(installed == Some(key_final as u32), "stale-key-set-after-set_tsig_keys-returned", "Server::tsig_keys() holds generation {installed:?}, generation {key_final} has been installed");
+        }
+        let (signed, _) = sign(&b.buf, &secret(installed.unwrap_or(1)), now);
         for (request, is_signed) in [(&b.buf, false), (&signed, true)] {
             let len = match server.handle_message(request, ReceivedInfo::new(src, Transport::Tcp), &mut buf) {
                 Response::Single(l) => l,
@@ -468,8 +504,15 @@ pub fn oracle_c32(w: &SwapRun, st: &mut Stats) -> Verdict {
             };
             let ctx = format!("final query after every replacement returned (catalog generation {cat_final}, key set {key_final}, two swapper threads: {}); response {d:?}", w.two_swappers);
             if is_signed {
-                let verified = d.tsig().and_then(|t| mr::parse_tsig(&t.rdata)).map_or(false, |rd| rd.error == 0) && d.header.rcode != 9;
-                ensure!(verified, "valid-signature-rejected", "{ctx}");
+                let rd = d.tsig().and_then(|t| mr::parse_tsig(&t.rdata));
+                match (installed, rd) {
+                    (Some(_), Some(rd)) => ensure!(rd.error == 0 && d.header.rcode != 9, "handling-disagrees-with-the-installed-key-set", "Server::tsig_keys() holds generation {installed:?}; {ctx}"),
+                    (None, Some(rd)) => {
+                        ensure!(d.header.rcode == 9 && rd.error == 17, "handling-disagrees-with-the-installed-key-set", "Server::tsig_keys() holds no key; {ctx}");
+                        continue;
+                    }
+                    (_, None) => fail!("signed-request-answered-without-tsig", "{ctx}"),
+                }
             }
             let mut seen = generations_in(&d).map_err(|e| crate::fw::Fail::new("unexpected-record", format!("{e}; {ctx}")))?;
             seen.sort_unstable();
@@ -478,6 +521,9 @@ pub fn oracle_c32(w: &SwapRun, st: &mut Stats) -> Verdict {
         }
     }
     st.class(if w.two_swappers { "catalogs-and-key-sets-replaced-by-two-threads" } else { "catalogs-and-key-sets-replaced-by-one-thread" });
+    if w.empty_key_rival {
+        st.class("runs-with-a-second-thread-installing-empty-key-sets");
+    }
     let c = checked.load(Ordering::SeqCst);
     let o = overlapped.load(Ordering::SeqCst);
     st.evals(c);
